@@ -89,6 +89,13 @@ func (v *FnVC) specTerm(e Expr, env *Env, cl *Clause) Term {
 	case *Unary:
 		if x.Op == "&" {
 			// address of a struct embedded by value: &p.f
+			if id, isId := x.X.(*Ident); isId && !env.callee {
+				// address of an address-taken (heap-allocated) local variable
+				if p := v.lookupLocal(id.Name, env.pos); p != nil && p.Kind == "cell" {
+					return Term{p.Base.S, types.NewPointer(p.Typ)}
+				}
+				v.specFail(cl, "&%s: not an address-taken local", id.Name)
+			}
 			sel, ok := x.X.(*SelE)
 			if !ok {
 				v.specFail(cl, "& needs a field selector")
